@@ -28,7 +28,7 @@ func init() {
 	core.Register(&core.Property{
 		ID:    "C08",
 		Level: "model_checking",
-		Rule: "universe = (a) every sequence of <=5 (thorough <=6) lines over 16 line shapes (headers good/bad, '#', blank, metavariable declarations good/bad, -/+/context lines, elision lines) with and without final newline; (b) every sequence of <=4 (thorough <=5) tokens over a 33-token alphabet as the '-' side against a fixed '+' side and vice versa; (c) every byte prefix of every patch in /repo/testdata and /repo/examples; (d) the radius-1 token neighbourhood of each of those patches (each token deleted, duplicated, swapped with its neighbour, replaced by each alphabet token); (f) the radius-1 byte neighbourhood of those patches (each byte deleted; each of 14 (thorough 31) hostile bytes incl. NUL, 0xff, CR inserted before / written over every position); (g) every real patch and 7 stress patches against every construct of the catalogue in context and against deeply nested / long sources (nesting 10..300, thorough ..1000); (h) 14 unusual file headers (empty comment lines, /**/, BOM, //line, markers) x 3 bodies x 5 flag sets through the CLI; (i) a target tree whose symbolic links form cycles; every sequence of <=3 lines of a -P list over {valid, missing, empty, blanks, tab, '#', trailing blanks} with and without final newline; (j) every sequence of <=5 (thorough <=6) body lines over 7 lines with elisions on the -, + and context side; (e) well-formed but ill-typed patches: every metavariable kind in every slot kind on either side with captures of every filler kind. Each runs patch.Parse and, if accepted, Apply on target files that contain every construct; a slice also through the CLI (-p and stdin). " +
+		Rule: "universe = (a) every sequence of <=5 (thorough <=6) lines over 16 line shapes (headers good/bad, '#', blank, metavariable declarations good/bad, -/+/context lines, elision lines) with and without final newline; (b) every sequence of <=4 (thorough <=5) tokens over a 33-token alphabet as the '-' side against a fixed '+' side and vice versa; (c) every byte prefix of every patch in /repo/testdata and /repo/examples; (d) the radius-1 token neighbourhood of each of those patches (each token deleted, duplicated, swapped with its neighbour, replaced by each alphabet token); (f) the radius-1 byte neighbourhood of those patches (each byte deleted; each of 14 (thorough 31) hostile bytes incl. NUL, 0xff, CR inserted before / written over every position); (g) every real patch and 7 stress patches against every construct of the catalogue in context and against deeply nested / long sources (nesting 10..300, thorough ..1000); (h) 14 unusual file headers (empty comment lines, /**/, BOM, //line, markers) x 3 bodies x 5 flag sets through the CLI; (i) a target tree whose symbolic links form cycles; every sequence of <=3 lines of a -P list over {valid, missing, empty, blanks, tab, '#', trailing blanks} with and without final newline; (j) every sequence of <=5 (thorough <=6) body lines over 7 lines with elisions on the -, + and context side; (k) //line directives (line 1, 7, 300000000) at every line of a target with multi-line sites; (l) 2..9 elisions (literal, one repeated metavariable, distinct metavariables) over lists of 12 and 40 equal elements, as arguments and as statements; (m) every sequence of <=5 lines over 6 lines that start with or carry many elisions; (e) well-formed but ill-typed patches: every metavariable kind in every slot kind on either side with captures of every filler kind. Each runs patch.Parse and, if accepted, Apply on target files that contain every construct; a slice also through the CLI (-p and stdin). " +
 			"Oracle: terminates (watchdog), no panic or fatal error, and either success or an error value / non-zero exit with a diagnostic. non-trivial = the patch is accepted by patch.Parse (the engine runs)",
 		Assumptions: []string{"a case that does not return within the watchdog limit of 10 s (normal cost < 1 ms) is re-run in isolation before it is reported as a hang"},
 		Bounds: func(tier string) map[string]any {
@@ -40,6 +40,14 @@ func init() {
 		Setup:       cliSetup,
 		Run:         c08Run,
 		HangSeconds: 20,
+		HangKey: func(ci any) string {
+			// the search for a placement of many sections is still exponential in the number of sections that
+			// each bind a metavariable of their own (known finding; see DESIGN 8.2)
+			if c := ci.(*C08Case); strings.HasPrefix(c.Family, "l-many-elisions/") && strings.Contains(c.Patch, "x5") {
+				return "/many-elisions-each-binding-its-own-metavariable"
+			}
+			return ""
+		},
 	})
 }
 
@@ -141,7 +149,13 @@ func tokenize(src string) (toks []string, offs []int) {
 	return
 }
 
-func c08Gen(tier string, emit func(any)) {
+func c08Gen(tier string, emit0 func(any)) {
+	only := os.Getenv("VERIF_C08_FAMILY") // debugging aid: restrict to the families with this prefix
+	emit := func(c any) {
+		if only == "" || strings.HasPrefix(c.(*C08Case).Family, only) {
+			emit0(c)
+		}
+	}
 	ll, tl := c08Bounds(tier)
 	// (a) line structure
 	shapes := []string{"@@", "@ n @", "@ 9 @", "@ @", "@x", "# c", "", "var x expression", "var x,", "var x", "x expression", "-foo(x)", "+bar(x)", " ctx", " ...", "-func f(...) {"}
@@ -164,6 +178,72 @@ func c08Gen(tier string, emit func(any)) {
 			return
 		}
 		emit(&C08Case{Family: "j-elision-lines", Patch: "@@\nvar x expression\n@@\n" + strings.Join(s, "\n") + "\n", Files: dotTarget})
+	})
+	// (k) //line directives in the target: positions reported by go/token are then not lines of the file
+	lineSrc := []string{"package a", "", "func f() {", "\tx := foo(1 +", "\t\t2)", "\ty := foo(", "\t\tg(", "\t\t\t3),", "\t)", "\t_, _ = x, y", "}"}
+	for _, n := range []string{"1", "7", "300000000"} {
+		for at := 1; at < len(lineSrc); at++ {
+			if n == "300000000" && at != 4 && at != 7 {
+				continue // the large jump (minutes of work per line counted one by one) at two places only
+			}
+			var b strings.Builder
+			for i, ln := range lineSrc {
+				if i == at {
+					b.WriteString("//line x.go:" + n + "\n")
+				}
+				b.WriteString(ln + "\n")
+			}
+			for _, p := range []string{"@@\nvar v expression\n@@\n-foo(v)\n+v\n", "@@\nvar v expression\n@@\n-foo(v)\n+bar(\n+  v,\n+  v)\n", "@@\nvar v identifier\n@@\n-v := foo(...)\n+v := 0\n"} {
+				emit(&C08Case{Family: "k-line-directive", Patch: p, Files: []string{b.String()}})
+			}
+		}
+	}
+	// (l) many elisions over a long list of equal elements: the number of ways to place the explicit elements
+	// grows exponentially, the answer must not take that long
+	for k := 2; k <= 9; k++ {
+		for _, el := range []string{"1", "x", "x%d"} {
+			var args, meta []string
+			for i := 0; i < k; i++ {
+				e := el
+				if strings.Contains(el, "%d") {
+					e = fmt.Sprintf(el, i)
+					meta = append(meta, e)
+				}
+				args = append(args, "..., "+e)
+			}
+			if el == "x" {
+				meta = []string{"x"}
+			}
+			if el == "x%d" && k > 4 && tier != "thorough" {
+				continue
+			}
+			decl := ""
+			if len(meta) > 0 {
+				decl = "var " + strings.Join(meta, ", ") + " expression\n"
+			}
+			for _, n := range []int{12, 40} {
+				ones := strings.TrimSuffix(strings.Repeat("1, ", n), ", ")
+				stmts := strings.Repeat("\tone(1)\n", n)
+				emit(&C08Case{Family: "l-many-elisions/args", Patch: "@@\n" + decl + "@@\n-foo(" + strings.Join(args, ", ") + ", ..., 2)\n+bar()\n", Files: []string{"package a\n\nfunc f() {\n\tfoo(" + ones + ")\n}\n"}})
+				var lines []string
+				for i := 0; i < k; i++ {
+					e := "1"
+					if el != "1" {
+						e = strings.TrimPrefix(args[i], "..., ")
+					}
+					lines = append(lines, " one("+e+")", " ...")
+				}
+				emit(&C08Case{Family: "l-many-elisions/stmts", Patch: "@@\n" + decl + "@@\n" + strings.Join(lines, "\n") + "\n-two()\n+bar()\n", Files: []string{"package a\n\nfunc f() {\n" + stmts + "}\n"}})
+			}
+		}
+	}
+	// (m) patches whose first line is an elision, followed by lines that carry many elisions
+	manyDots := []string{"-...", "-g0(func(..., b func(..., func(...))) (..., error) { ... }, ...)", "-g1(...)", "-g3(func(a func(...), ...) {}, ...)", "+bar(...)", " h(..., func(...) { ... })"}
+	seqsEach(manyDots, ll, func(s []string) {
+		if len(s) < 2 {
+			return
+		}
+		emit(&C08Case{Family: "m-leading-elision", Patch: "@@\n@@\n" + strings.Join(s, "\n") + "\n", Files: dotTarget})
 	})
 	// (b) token strings on one side
 	seqsEach(c08TokenAlphabet, tl, func(s []string) {
